@@ -442,7 +442,7 @@ def run(ctx: Ctx):
     ctx.floor("R04.9", 6)
     from .c06 import milestone_bound_rule
     milestone_bound_rule(ctx, "R04.10")
-    ctx.floor("R04.10", 2)
+    ctx.floor("R04.10", 4)
     # ---------------------------------------------------------------- R04.11 a dependency on a container binds its children (backward mode)
     from .common import edge_selects_me
     for q in ("TaskScenario._getSuccessors", "TaskScenario._gapToSuccessor"):
